@@ -40,6 +40,9 @@ def gen_real_case(seed):
         progs.append(prog)
     pos = rng.randrange(len(progs[0]) + 1)
     progs[0].insert(pos, ["start"])
+    if rng.random() < 0.12:
+        prog = progs[rng.randrange(len(progs))]
+        prog.insert(rng.randrange(len(prog) + 1), ["start"])  # start() a second time
     if rng.random() < 0.2:
         progs[0].append(["rmroot"])
     sched = draw_sched(cfg, line=True, pct_k=2500, step_cap=400_000, horizon=3600, pct_share=0.25)
